@@ -150,7 +150,7 @@ def cpu_limited(fn, seconds=None):
     import threading
     if threading.current_thread() is not threading.main_thread():
         return fn()
-    seconds = seconds or float(os.environ.get("VERIF_EVAL_CPU_S") or 30)
+    seconds = seconds or float(os.environ.get("VERIF_EVAL_CPU_S") or 8)
 
     def on_timer(_s, _f):
         raise EvaluationTimeout(f"no result after {seconds} s of CPU time")
@@ -163,14 +163,21 @@ def cpu_limited(fn, seconds=None):
         signal.signal(signal.SIGVTALRM, old)
 
 
+_TIMED_OUT = [0]
+
+
 def run_rule(rule, arch):
     """-> (verdict, detail): ('PASS', ''), ('FAIL', message), ('ERR', family)"""
+    if _TIMED_OUT[0] >= 2:
+        # two evaluations in this process already failed to terminate: report those, do not spend the budget on more
+        return ("ERR", "NonTermination: not evaluated (earlier evaluations in this run did not terminate)")
     try:
         cpu_limited(lambda: rule.assert_applies(arch))
         return ("PASS", "")
     except AssertionError as e:
         return ("FAIL", str(e))
     except EvaluationTimeout as e:
+        _TIMED_OUT[0] += 1
         return ("ERR", "NonTermination: " + str(e))
     except Exception as e:  # noqa: BLE001
         return ("ERR", classify_exception(e))
@@ -574,8 +581,14 @@ def _real_queries(arch, ds, us):
     for name, fn in (("between", lambda: {(key(k[0]), key(k[1])): edges(v) for k, v in arch.get_dependencies(D, U).items()}),
                      ("out", lambda: {key(k): edges(v) for k, v in arch.any_dependencies_from_dependents_to_modules_other_than_dependent_upons(D, U).items()}),
                      ("in", lambda: {key(k): edges(v) for k, v in arch.any_other_dependencies_on_dependent_upons_than_from_dependents(D, U).items()})):
+        if _TIMED_OUT[0] >= 2:
+            out[name] = ("ERR", "NonTermination: not evaluated (earlier evaluations in this run did not terminate)")
+            continue
         try:
-            out[name] = fn()
+            out[name] = cpu_limited(fn)
+        except EvaluationTimeout as e:
+            _TIMED_OUT[0] += 1
+            out[name] = ("ERR", "NonTermination: " + str(e))
         except Exception as e:  # noqa: BLE001
             out[name] = ("ERR", classify_exception(e))
     return out
